@@ -36,6 +36,20 @@ pub fn chk_dir_roundtrip(es: &[Entry], all_codecs: bool) -> Result<(), String> {
                 return Err(format!("decompressed {} bytes differ from the independent encoder", comp_tok(c)));
             }
         }
+        // a slice that runs past the directory (the rest of a file, as in the doc example of Directory::from_bytes): the
+        // parser stops after the last entry, whatever follows
+        {
+            let enc = dir_enc(false, c, es).map_err(|e| format!("encode {} failed: {e}", comp_tok(c)))?;
+            for tail in [&b"\x00"[..], &b"PMTiles\x03 and the rest of a file \xff\xfe\x28\xb5\x2f\xfd"[..], &[0x1f, 0x8b, 0x08, 0, 0, 0][..]] {
+                let mut open_ended = enc.clone();
+                open_ended.extend_from_slice(tail);
+                let d = pmtiles2::Directory::from_bytes(&open_ended, c)
+                    .map_err(|e| format!("Directory::from_bytes of a {} directory followed by {} more bytes failed: {e}", comp_tok(c), tail.len()))?;
+                if crate::ops::dir_entries(&d) != es {
+                    return Err(format!("Directory::from_bytes of a {} directory followed by more bytes yields other entries", comp_tok(c)));
+                }
+            }
+        }
         // the specification's bytes as another writer's encoder would compress them (other levels, window sizes, framing)
         if c != Compression::None {
             let v = spec.iter().fold(es.len() as u64, |a, b| a.wrapping_mul(131).wrapping_add(u64::from(*b)));
@@ -178,6 +192,11 @@ pub fn gen(rng: &mut Rng, quick: bool, st: &mut Stats) -> Vec<String> {
         }
         // direct oracle
         cases.push(format!("chk_dir_roundtrip {} {et}", u8::from(k % 4 == 0 || !quick || es.len() > 3000)));
+    }
+    // directories of more than 2^17 entries, all contiguous (the shorthand R<n> is expanded inside the worker)
+    for n in [131_071u64, 131_073, 140_000, 262_145] {
+        cases.push(format!("chk_dir_roundtrip {} R{n:x}", u8::from(n == 131_073)));
+        st.bump("lists_over_2pow17_entries");
     }
     cases
 }
